@@ -1923,6 +1923,166 @@ Proof.
 Qed.
 End OELin.
 
+
+(* ---- electron repulsion: linearity through both horizontal recursions ---- *)
+Lemma eri_channel_lin La Lc lb ld abx aby abz cdx cdy cdz comps3 comps4 getc getc1 getc2 c1 c2 i3 i4 bx by_ bz :
+  (forall cx cy cz ax ay az, getc cx cy cz ax ay az = c1 * getc1 cx cy cz ax ay az + c2 * getc2 cx cy cz ax ay az) ->
+  clin c1 c2
+    (nth bz (nth by_ (nth bx (nth i4 (nth i3 (eri_channel K La Lc lb ld abx aby abz cdx cdy cdz comps3 comps4 getc) []) []) []) []) [])
+    (nth bz (nth by_ (nth bx (nth i4 (nth i3 (eri_channel K La Lc lb ld abx aby abz cdx cdy cdz comps3 comps4 getc1) []) []) []) []) [])
+    (nth bz (nth by_ (nth bx (nth i4 (nth i3 (eri_channel K La Lc lb ld abx aby abz cdx cdy cdz comps3 comps4 getc2) []) []) []) []) []).
+Proof.
+  intros H. unfold eri_channel. cbv zeta.
+  rewrite !(nth_map_len _ _ i3 (0, 0, 0)%nat). match goal with |- context [i3 <? ?n] => destruct (i3 <? n) end; [|destruct i4, bx, by_, bz; apply clin_nil].
+  rewrite !(nth_map_len _ _ i4 (0, 0, 0)%nat). match goal with |- context [i4 <? ?n] => destruct (i4 <? n) end; [|destruct bx, by_, bz; apply clin_nil].
+  apply hrr_lin. intros ax ay az. rewrite !cget_mk3.
+  destruct (Nat.ltb_spec ax (S La)) as [Hax|]; cbn [andb]; [|ring].
+  destruct (Nat.ltb_spec ay (S La)) as [Hay|]; cbn [andb]; [|ring].
+  destruct (Nat.ltb_spec az (S La)) as [Haz|]; [|ring].
+  rewrite !(nth_mk (S La) _ _ ax) by exact Hax. rewrite !(nth_mk (S La) _ _ ay) by exact Hay.
+  rewrite !(nth_mk (S La) _ _ az) by exact Haz.
+  apply hrr_lin. intros cx cy cz. rewrite !cget_mk3.
+  destruct ((cx <? S Lc) && (cy <? S Lc) && (cz <? S Lc)); [apply H|ring].
+Qed.
+
+Lemma eri_block_gen_lin M1 M2 M3 M4 ctr ctr1 ctr2 c1 c2 s1 s2 s3 s4 m1 i1 m2 i2 m3 i3 m4 i4 :
+  (forall m1 m2 m3 m4 cx cy cz ax ay az,
+     ctr m1 m2 m3 m4 cx cy cz ax ay az
+     = c1 * ctr1 m1 m2 m3 m4 cx cy cz ax ay az + c2 * ctr2 m1 m2 m3 m4 cx cy cz ax ay az) ->
+  m1 < M1 -> i1 < ncomp s1 -> m2 < M2 -> i2 < ncomp s2 -> m3 < M3 -> i3 < ncomp s3 -> m4 < M4 -> i4 < ncomp s4 ->
+  nth8 m1 i1 m2 i2 m3 i3 m4 i4 (eri_block_gen M1 M2 M3 M4 ctr s1 s2 s3 s4)
+  = c1 * nth8 m1 i1 m2 i2 m3 i3 m4 i4 (eri_block_gen M1 M2 M3 M4 ctr1 s1 s2 s3 s4)
+    + c2 * nth8 m1 i1 m2 i2 m3 i3 m4 i4 (eri_block_gen M1 M2 M3 M4 ctr2 s1 s2 s3 s4).
+Proof.
+  intros H H1 Hi1 H2 Hi2 H3 Hi3 H4 Hi4. unfold nth8, eri_block_gen. cbv zeta. unfold ncomp in *.
+  rewrite !(nth_mk M1 _ _ m1) by exact H1. rewrite !(nth_mk _ _ _ i1) by exact Hi1.
+  rewrite !(nth_mk M2 _ _ m2) by exact H2. rewrite !(nth_mk _ _ _ i2) by exact Hi2.
+  rewrite !(nth_mk M3 _ _ m3) by exact H3. rewrite !(nth_mk _ _ _ i3) by exact Hi3.
+  rewrite !(nth_mk M4 _ _ m4) by exact H4. rewrite !(nth_mk _ _ _ i4) by exact Hi4.
+  unfold eri_chans_gen. cbv zeta.
+  rewrite !(nth_mk M1 _ _ m1) by exact H1. rewrite !(nth_mk M2 _ _ m2) by exact H2.
+  rewrite !(nth_mk M3 _ _ m3) by exact H3. rewrite !(nth_mk M4 _ _ m4) by exact H4.
+  rewrite (eri_channel_lin _ _ _ _ _ _ _ _ _ _ _ _ (ctr m1 m2 m3 m4) (ctr1 m1 m2 m3 m4) (ctr2 m1 m2 m3 m4) c1 c2
+             i3 i4 _ _ _ (H m1 m2 m3 m4)).
+  ring.
+Qed.
+
+(* a coefficient matrix whose contraction sums are the combination c1 x (sums of C1) + c2 x (sums of C2) *)
+Definition sum_lin (c1 c2 : F) (p p1 p2 : list (@prim F)) : Prop :=
+  forall f m, ssum f p m = c1 * ssum f p1 m + c2 * ssum f p2 m.
+
+Lemma sum_lin_add es C1 C2 : same_shape C1 C2 ->
+  sum_lin 1 1 (combine es (rows_add C1 C2)) (combine es C1) (combine es C2).
+Proof. intros H f m. rewrite (ssum_add _ _ _ _ _ H). ring. Qed.
+Lemma sum_lin_scale es k C : sum_lin k 0 (combine es (rows_scale k C)) (combine es C) (combine es C).
+Proof. intros f m. rewrite ssum_scale. ring. Qed.
+
+Lemma ssum_flin c1 c2 f f1 f2 p m : (forall a, f a = c1 * f1 a + c2 * f2 a) ->
+  ssum f p m = c1 * ssum f1 p m + c2 * ssum f2 p m.
+Proof.
+  intros H. unfold ssum. rewrite <- !fsum_map_scale, <- fsum_map_add. apply fsum_map_ext. intros q. rewrite H. ring.
+Qed.
+
+Section QL.
+Variables (E : F -> F -> F -> F -> F) (N1 N2 N3 N4 : F -> F) (c1 c2 : F).
+Notation Q := (qsum E N1 N2 N3 N4).
+Lemma qsum_lin_1 p p' p'' p2 p3 p4 m1 m2 m3 m4 : sum_lin c1 c2 p p' p'' ->
+  Q p p2 p3 p4 m1 m2 m3 m4 = c1 * Q p' p2 p3 p4 m1 m2 m3 m4 + c2 * Q p'' p2 p3 p4 m1 m2 m3 m4.
+Proof. intros H. unfold qsum. apply H. Qed.
+Lemma qsum_lin_2 p1 p p' p'' p3 p4 m1 m2 m3 m4 : sum_lin c1 c2 p p' p'' ->
+  Q p1 p p3 p4 m1 m2 m3 m4 = c1 * Q p1 p' p3 p4 m1 m2 m3 m4 + c2 * Q p1 p'' p3 p4 m1 m2 m3 m4.
+Proof. intros H. unfold qsum. apply ssum_flin. intros a. rewrite H. ring. Qed.
+Lemma qsum_lin_3 p1 p2 p p' p'' p4 m1 m2 m3 m4 : sum_lin c1 c2 p p' p'' ->
+  Q p1 p2 p p4 m1 m2 m3 m4 = c1 * Q p1 p2 p' p4 m1 m2 m3 m4 + c2 * Q p1 p2 p'' p4 m1 m2 m3 m4.
+Proof.
+  intros H. unfold qsum. apply ssum_flin. intros a.
+  rewrite (ssum_flin c1 c2 _ (fun b => ssum (fun c => ssum (fun d => E a b c d * N4 d) p4 m4 * N3 c) p' m3 * N2 b)
+             (fun b => ssum (fun c => ssum (fun d => E a b c d * N4 d) p4 m4 * N3 c) p'' m3 * N2 b)).
+  - ring.
+  - intros b. rewrite H. ring.
+Qed.
+Lemma qsum_lin_4 p1 p2 p3 p p' p'' m1 m2 m3 m4 : sum_lin c1 c2 p p' p'' ->
+  Q p1 p2 p3 p m1 m2 m3 m4 = c1 * Q p1 p2 p3 p' m1 m2 m3 m4 + c2 * Q p1 p2 p3 p'' m1 m2 m3 m4.
+Proof.
+  intros H. unfold qsum. apply ssum_flin. intros a.
+  rewrite (ssum_flin c1 c2 _
+             (fun b => ssum (fun c => ssum (fun d => E a b c d * N4 d) p' m4 * N3 c) p3 m3 * N2 b)
+             (fun b => ssum (fun c => ssum (fun d => E a b c d * N4 d) p'' m4 * N3 c) p3 m3 * N2 b)).
+  - ring.
+  - intros b.
+    rewrite (ssum_flin c1 c2 _ (fun c => ssum (fun d => E a b c d * N4 d) p' m4 * N3 c)
+               (fun c => ssum (fun d => E a b c d * N4 d) p'' m4 * N3 c)).
+    + ring.
+    + intros c. rewrite H. ring.
+Qed.
+End QL.
+
+(* 4. un-normalised linearity of the electron-repulsion block in the coefficient matrix of each of the four
+      shells: C with contraction sums c1 x C1 + c2 x C2 (C1 + C2: c1 = c2 = 1; k C1: c1 = k, c2 = 0) *)
+Section ERILin.
+Variables (s1 s2 s3 s4 : shell F) (C C1 C2 : list (list F)) (c1 c2 : F).
+Variables (m1 i1 m2 i2 m3 i3 m4 i4 : nat).
+Hypothesis Hi1 : i1 < ncomp s1. Hypothesis Hi2 : i2 < ncomp s2.
+Hypothesis Hi3 : i3 < ncomp s3. Hypothesis Hi4 : i4 < ncomp s4.
+Notation N8 := (nth8 m1 i1 m2 i2 m3 i3 m4 i4).
+
+Theorem eri_block_lin_1 :
+  sum_lin c1 c2 (combine (s_exps s1) C) (combine (s_exps s1) C1) (combine (s_exps s1) C2) ->
+  nseg (set_coeffs s1 C1) = nseg (set_coeffs s1 C) -> nseg (set_coeffs s1 C2) = nseg (set_coeffs s1 C) ->
+  m1 < nseg (set_coeffs s1 C) -> m2 < nseg s2 -> m3 < nseg s3 -> m4 < nseg s4 ->
+  N8 (eri_block K (set_coeffs s1 C) s2 s3 s4)
+  = c1 * N8 (eri_block K (set_coeffs s1 C1) s2 s3 s4) + c2 * N8 (eri_block K (set_coeffs s1 C2) s2 s3 s4).
+Proof.
+  intros HL NA NB H1 H2 H3 H4. rewrite !eri_block_form, NA, NB, !prims_set_coeffs.
+  change (eri_block_gen ?a ?b ?c ?d ?e (set_coeffs s1 ?X) s2 s3 s4) with (eri_block_gen a b c d e s1 s2 s3 s4).
+  change (eri_ctr (set_coeffs s1 ?X) s2 s3 s4) with (eri_ctr s1 s2 s3 s4).
+  change (s_exps (set_coeffs s1 ?X)) with (s_exps s1).
+  apply eri_block_gen_lin; try assumption. intros. unfold eri_ctr. now apply qsum_lin_1.
+Qed.
+
+Theorem eri_block_lin_2 :
+  sum_lin c1 c2 (combine (s_exps s2) C) (combine (s_exps s2) C1) (combine (s_exps s2) C2) ->
+  nseg (set_coeffs s2 C1) = nseg (set_coeffs s2 C) -> nseg (set_coeffs s2 C2) = nseg (set_coeffs s2 C) ->
+  m1 < nseg s1 -> m2 < nseg (set_coeffs s2 C) -> m3 < nseg s3 -> m4 < nseg s4 ->
+  N8 (eri_block K s1 (set_coeffs s2 C) s3 s4)
+  = c1 * N8 (eri_block K s1 (set_coeffs s2 C1) s3 s4) + c2 * N8 (eri_block K s1 (set_coeffs s2 C2) s3 s4).
+Proof.
+  intros HL NA NB H1 H2 H3 H4. rewrite !eri_block_form, NA, NB, !prims_set_coeffs.
+  change (eri_block_gen ?a ?b ?c ?d ?e s1 (set_coeffs s2 ?X) s3 s4) with (eri_block_gen a b c d e s1 s2 s3 s4).
+  change (eri_ctr s1 (set_coeffs s2 ?X) s3 s4) with (eri_ctr s1 s2 s3 s4).
+  change (s_exps (set_coeffs s2 ?X)) with (s_exps s2).
+  apply eri_block_gen_lin; try assumption. intros. unfold eri_ctr. now apply qsum_lin_2.
+Qed.
+
+Theorem eri_block_lin_3 :
+  sum_lin c1 c2 (combine (s_exps s3) C) (combine (s_exps s3) C1) (combine (s_exps s3) C2) ->
+  nseg (set_coeffs s3 C1) = nseg (set_coeffs s3 C) -> nseg (set_coeffs s3 C2) = nseg (set_coeffs s3 C) ->
+  m1 < nseg s1 -> m2 < nseg s2 -> m3 < nseg (set_coeffs s3 C) -> m4 < nseg s4 ->
+  N8 (eri_block K s1 s2 (set_coeffs s3 C) s4)
+  = c1 * N8 (eri_block K s1 s2 (set_coeffs s3 C1) s4) + c2 * N8 (eri_block K s1 s2 (set_coeffs s3 C2) s4).
+Proof.
+  intros HL NA NB H1 H2 H3 H4. rewrite !eri_block_form, NA, NB, !prims_set_coeffs.
+  change (eri_block_gen ?a ?b ?c ?d ?e s1 s2 (set_coeffs s3 ?X) s4) with (eri_block_gen a b c d e s1 s2 s3 s4).
+  change (eri_ctr s1 s2 (set_coeffs s3 ?X) s4) with (eri_ctr s1 s2 s3 s4).
+  change (s_exps (set_coeffs s3 ?X)) with (s_exps s3).
+  apply eri_block_gen_lin; try assumption. intros. unfold eri_ctr. now apply qsum_lin_3.
+Qed.
+
+Theorem eri_block_lin_4 :
+  sum_lin c1 c2 (combine (s_exps s4) C) (combine (s_exps s4) C1) (combine (s_exps s4) C2) ->
+  nseg (set_coeffs s4 C1) = nseg (set_coeffs s4 C) -> nseg (set_coeffs s4 C2) = nseg (set_coeffs s4 C) ->
+  m1 < nseg s1 -> m2 < nseg s2 -> m3 < nseg s3 -> m4 < nseg (set_coeffs s4 C) ->
+  N8 (eri_block K s1 s2 s3 (set_coeffs s4 C))
+  = c1 * N8 (eri_block K s1 s2 s3 (set_coeffs s4 C1)) + c2 * N8 (eri_block K s1 s2 s3 (set_coeffs s4 C2)).
+Proof.
+  intros HL NA NB H1 H2 H3 H4. rewrite !eri_block_form, NA, NB, !prims_set_coeffs.
+  change (eri_block_gen ?a ?b ?c ?d ?e s1 s2 s3 (set_coeffs s4 ?X)) with (eri_block_gen a b c d e s1 s2 s3 s4).
+  change (eri_ctr s1 s2 s3 (set_coeffs s4 ?X)) with (eri_ctr s1 s2 s3 s4).
+  change (s_exps (set_coeffs s4 ?X)) with (s_exps s4).
+  apply eri_block_gen_lin; try assumption. intros. unfold eri_ctr. now apply qsum_lin_4.
+Qed.
+End ERILin.
+
 End P.
 
 (* ------------------------------------------------------------------ *)
